@@ -29,6 +29,7 @@ be issued.
 from __future__ import absolute_import
 
 import uuid
+import collections.abc
 
 from slimta.relay import RelayError
 
@@ -65,11 +66,23 @@ class ProxyQueue(object):
 
     def enqueue(self, envelope):
         try:
-            self.relay._attempt(envelope, 0)
+            results = self.relay._attempt(envelope, 0)
         except RelayError as e:
             return [(envelope, e)]
-        else:
-            return [(envelope, uuid.uuid4().hex)]
+        # A relay may report results per recipient: the message was not
+        # relayed successfully unless every recipient was.
+        failure = None
+        if isinstance(results, collections.abc.Mapping):
+            for rcpt, rcpt_res in results.items():
+                if isinstance(rcpt_res, RelayError):
+                    failure = rcpt_res
+        elif isinstance(results, collections.abc.Sequence):
+            for rcpt_res in results:
+                if isinstance(rcpt_res, RelayError):
+                    failure = rcpt_res
+        if failure is not None:
+            return [(envelope, failure)]
+        return [(envelope, uuid.uuid4().hex)]
 
 
 # vim:et:fdm=marker:sts=4:sw=4:ts=4
